@@ -130,7 +130,7 @@ def canon_expr(e):
     if h == "fl":
         return [h, e[1]] + [canon_expr(a) for a in e[2:]]
     if h in ("exists", "forall"):
-        return [h, e[1], canon_expr(e[2])]
+        return [h, sorted(e[1]), canon_expr(e[2])]      # the external parser keeps quantified variables in a set
     args = [canon_expr(a) for a in e[1:]]
     if h in ("and", "or", "plus", "times"):
         flat = []
